@@ -104,6 +104,8 @@ class OptCase:
             except Exception:
                 opt, kw = self.make_optimizer()
         Bc = self.B.copy()
+        if self.meta.get("dtype") == "float32":
+            Bc = Bc.astype(np.float32)      # entries are small integers / dyadic: exactly representable in single precision too
         if self.kind == "qr":
             opt.fit(Bc)
             r = np.array(opt.get_sensors()).tolist()
@@ -143,7 +145,7 @@ class OptCase:
                 res["dlens"] = [s["before"] for s in tap.steps]
                 res["zeros"] = [[(b != 0 and a == 0) for b, a in zip(s["before"], s["after"])] for s in tap.steps]
                 res["pivs"] = [s["piv"] for s in tap.steps]
-        res["B_unchanged"] = bool(np.array_equal(Bc, self.B))
+        res["B_unchanged"] = bool(np.array_equal(Bc.astype(float), self.B))
         return res
 
     # -- Lean model ---------------------------------------------------------------
